@@ -246,3 +246,63 @@ def mk_side(ids, labels, orders, rng=None, with_nb=True):
 
 def size_of(g):
     return len(g["nodes"])
+
+
+# ------------------------------------------------------------------ options of ITSConstruction.construct (model/C01_Opts.v)
+# case["opts"] = {"ia": bool, "bal": bool, "store": bool, "dflt": {attr: value}|None, "api": "ITSGraph"|"construct"}
+
+CORE_DFLT = {"element": "*", "aromatic": False, "hcount": 0, "charge": 0, "neighbors": ["", ""]}
+
+
+def resolved_defaults(opts):
+    """independent reading of _resolve_defaults restricted to the five typesGH attributes"""
+    d = dict(CORE_DFLT)
+    for k, v in (opts.get("dflt") or {}).items():
+        if k in d:
+            d[k] = v
+    return d
+
+
+def coq_opts(opts):
+    d = resolved_defaults(opts)
+    return "(CO %s %s %s)" % (cb(bool(opts.get("ia", False))), cb(bool(opts.get("bal", False))),
+                              coq_nattr((d["element"], d["aromatic"], d["hcount"], d["charge"], d["neighbors"])))
+
+
+def call_construct(G, H, opts):
+    """run ITSConstruction with the options of a case (either through the ITSGraph wrapper or construct itself)"""
+    from synkit.Graph.ITS.its_construction import ITSConstruction
+    kw = dict(ignore_aromaticity=bool(opts.get("ia", False)), balance_its=bool(opts.get("bal", False)),
+              store=bool(opts.get("store", False)), attributes_defaults=(dict(opts["dflt"]) if opts.get("dflt") else None))
+    if opts.get("api", "ITSGraph") == "construct":
+        return ITSConstruction.construct(G, H, **kw)
+    return ITSConstruction.ITSGraph(G, H, **kw)
+
+
+def obs_its_store(I):
+    """observable of an ITS built with store=True (mirror of titsS in C01_Opts.v): top-level attributes are (G, H) pairs"""
+    ns = []
+    for n, d in I.nodes(data=True):
+        keys = set(d)
+        want = {"element", "aromatic", "hcount", "charge", "neighbors", "atom_map", "typesGH"}
+        odd = sorted(keys - want) + sorted("missing:" + k for k in want - keys)
+        def pair(k, f):
+            v = d.get(k)
+            if not isinstance(v, tuple) or len(v) != 2:
+                raise TypeError("store=True attribute %s is not a pair: %r" % (k, v))
+            return [f(v[0]), f(v[1])]
+        row = [n, _int(d.get("atom_map", -99)), pair("element", elem_code), pair("aromatic", _bool), pair("hcount", _int),
+               pair("charge", _int), pair("neighbors", lambda l: [elem_code(x) for x in l]),
+               obs_nattr(d["typesGH"][0]), obs_nattr(d["typesGH"][1])]
+        if odd:
+            row.append(odd)
+        ns.append(row)
+    es = []
+    for u, v, d in I.edges(data=True):
+        odd = sorted(set(d) - {"order", "standard_order"})
+        oa, ob = d["order"]
+        row = [min(u, v), max(u, v), half(oa), half(ob), half(d["standard_order"])]
+        if odd:
+            row.append(odd)
+        es.append(row)
+    return [S(ns), S(es)]
